@@ -77,7 +77,8 @@ def item(rng, depth, feats):
             body += ":" + block(rng, depth - 1, rng.randrange(1, 3), feats)
         return "[" + n + " " + body + "]"
     if depth > 0 and k < 0.16 and feats.get("chord", True):
-        inner = "".join(rng.choice(NOTES) + rng.choice(["", "", "+", "-"]) for _ in range(rng.randrange(1, 5)))
+        inner = "".join(rng.choice([rng.choice(NOTES) + rng.choice(["", "", "+", "-"])] * 6 + ["r", "r8", ">", "<", "l8", "v90"])
+                        for _ in range(rng.randrange(1, 5)))
         return "'" + inner + "'" + rng.choice(["", "4", "8", "2", "4,80"])
     if depth > 0 and k < 0.22 and feats.get("tuplet", True):
         inner = "".join(rng.choice(["c", "d", "e", "r", "g", "c^", "a"]) for _ in range(rng.randrange(1, 6)))
